@@ -31,6 +31,8 @@ type Srv struct {
 	clock  int64
 	ownDir bool
 	track  *trackStorage
+	// Inline: serve on the calling goroutine (scheduler-driven checks identify workers by goroutine).
+	Inline bool
 }
 
 func storageFor(engine, dir string) bttest.Storage {
@@ -476,6 +478,26 @@ func (s *Srv) ExecCtx(ctx context.Context, op *Op, onSend func(n int) error) (re
 // Call invokes the handler of rpc with msg, capturing panics; the response is
 // marshalled right after the handler returns (as gRPC does).
 func (s *Srv) Call(ctx context.Context, rpc string, msg proto.Message, onSend func(n int) error) (res *Result) {
+	if s.Inline || onSend != nil {
+		return s.callInline(ctx, rpc, msg, onSend)
+	}
+	// On its own goroutine, so that a request that never returns (a table lock leaked on an error path, a lock
+	// taken twice) is a reported failure and not a wedged check. Callers that park streams on purpose (onSend)
+	// and scheduler-driven checks (Inline) have their own detection.
+	done := make(chan *Result, 1)
+	go func() { done <- s.callInline(ctx, rpc, msg, nil) }()
+	select {
+	case r := <-done:
+		return r
+	case <-time.After(HangAfter):
+		return &Result{Panic: fmt.Sprintf("HANG: %s did not return within %s", rpc, HangAfter)}
+	}
+}
+
+// HangAfter: a request that has not returned after this long is reported as hung.
+var HangAfter = 60 * time.Second
+
+func (s *Srv) callInline(ctx context.Context, rpc string, msg proto.Message, onSend func(n int) error) (res *Result) {
 	res = &Result{}
 	defer func() {
 		if r := recover(); r != nil {
